@@ -110,4 +110,8 @@ def holds (cfg : Nat → LockCfg) (st : St) (i : Nat) : Prop := st.store.get (cf
 
 instance (cfg : Nat → LockCfg) (st : St) (i : Nat) : Decidable (holds cfg st i) := by unfold holds; infer_instance
 
+/-- what an observer reading Redis directly sees under key `k`: (value, PTTL) -/
+def St.view (st : St) (k : String) : Option (String × Int) :=
+  (st.store.live k).map fun e => (e.val, st.store.pttl k)
+
 end GoZero.C19
